@@ -250,14 +250,30 @@ def run_shards(outdir, timeout=1800):
         return path, rc, out, wall
 
     t0 = time.time()
+
+    def take(path, rc, out):
+        if rc != 0 or "R =" not in out:
+            return False
+        body = out[out.index("R ="):]
+        for m in re.finditer(r"\(\s*(-?\d+)(?:%Z)?\s*,\s*(-?\d+)(?:%Z)?\s*\)", body):
+            failures[int(m.group(1))] = int(m.group(2))
+        return True
+
+    killed = []
     with concurrent.futures.ThreadPoolExecutor(max_workers=NCPU) as ex:
         for path, rc, out, wall in ex.map(one, shards):
-            if rc != 0 or "R =" not in out:
-                errors.append("%s: rc=%d %s" % (os.path.basename(path), rc, out[-600:]))
+            if take(path, rc, out):
                 continue
-            body = out[out.index("R ="):]
-            for m in re.finditer(r"\(\s*(-?\d+)(?:%Z)?\s*,\s*(-?\d+)(?:%Z)?\s*\)", body):
-                failures[int(m.group(1))] = int(m.group(2))
+            if rc < 0 or rc == 137:
+                # coqc was killed by a signal (the kernel's OOM killer when the machine is short of
+                # memory): that says nothing about the property; evaluate the shard again, alone.
+                killed.append(path)
+            else:
+                errors.append("%s: rc=%d %s" % (os.path.basename(path), rc, out[-600:]))
+    for path in killed:
+        path, rc, out, wall = one(path)
+        if not take(path, rc, out):
+            errors.append("%s: rc=%d (after a serial retry) %s" % (os.path.basename(path), rc, out[-600:]))
     for f in glob.glob(os.path.join(outdir, "cases_*.vo")) + glob.glob(os.path.join(outdir, "cases_*.glob")) \
             + glob.glob(os.path.join(outdir, ".cases_*.aux")) + glob.glob(os.path.join(outdir, "cases_*.vok")) \
             + glob.glob(os.path.join(outdir, "cases_*.vos")):
